@@ -50,3 +50,80 @@ Definition ex_run : ostate :=
 Example C01_nonvacuous :
   (∃ i, o_main ex_run = Some i ∧ head i = 2%N ∧ size (i_manifest i) = 1%nat) ∧ o_staged ex_run = None.
 Proof. split; [eexists; split; [vm_compute; reflexivity|split; vm_compute; reflexivity]|vm_compute; reflexivity]. Qed.
+
+(** * file-system level: the fault-free commit of the protocol model (Model/FsTree.v, Model/Commit.v) leaves an object
+    root that abstracts (Model/CommitAbs.v: [abs]) to a tree satisfying [written_by_rocfl] (Model/ObjTree.v) - every
+    version directory with its inventory and sidecar, the head's identical to the root's, content files <=> manifest
+    paths <=> used by some state, no empty directory, no stray file - which the transcription of rocfl's validator
+    accepts (Props/C06.v, [written_valid]).
+
+    Quantified over: the name abstraction [aseg] (any injective one), the meaning [interp] of inventory bytes, the
+    digest function [dg], the algorithm [al]; every configuration, tree and staged inventory satisfying [commit_pre]
+    (C04/C05) and [commit_pre_tree] (= [staged_pre]: well-formed tree, token/inventory agreement, the committed inventory
+    is the staged one minus the duplicates and is closed, staged version directory = inventory + sidecar + content whose
+    manifest files carry the manifest digests, staged inventory extends the object's root inventory; and
+    [main_written]: the object in the repository is absent or [written_by_rocfl] with no directory named like a
+    declaration).  First versions, further versions, dedup, orphans, emptied directories, delete-only versions and the
+    declaration swap of an upgrade are all covered; no bound on sizes. *)
+(* Model/Commit.v declares the monad notation "_ ;; _" at another level than stdpp: the file-system models are
+   required, not imported, and their names are written qualified *)
+From Rocfl Require Model.FsTree Model.Commit Corr.CheckCommit Model.ObjTree Model.TreeValidate.
+From Rocfl Require Import Model.FsOps Model.CommitAbs Proofs.CommitAbsMain Proofs.CommitAbsWitness.
+
+Theorem C01_commit_yields_written_object :
+  forall (aseg : fseg -> oseg), (forall x y, aseg x = aseg y -> x = y) ->
+  forall (interp : N -> option oinv) (dg : oalg -> ObjTree.token -> N) (al : oalg),
+  forall c t i, Commit.commit_pre c t i -> commit_pre_tree aseg interp dg al c t i ->
+    let t' := Commit.run_tree (Commit.commit c) t Commit.NoInj in
+    let o' := abs aseg t' (Commit.c_mo c) in
+    twf t' /\ written interp dg al o'
+    /\ ObjTree.root_inv (parse_inv interp) o' = interp (Commit.c_newk c) /\ interp (Commit.c_newk c) <> None
+    /\ main_written aseg interp dg al c t'
+    /\ forall fd, TreeValidate.tree_errors dg fd (parse_inv interp) (parse_sidecar dg al) parse_decl true o' = []
+                  /\ TreeValidate.tree_errors dg fd (parse_inv interp) (parse_sidecar dg al) parse_decl false o' = [].
+Proof. exact commit_yields_written_full. Qed.
+Print Assumptions C01_commit_yields_written_object.
+
+(** the same with every hypothesis a boolean: what the correspondence check evaluates on real pre-states *)
+Theorem C01_commit_yields_written_object_checkable :
+  forall (aseg : fseg -> oseg), (forall x y, aseg x = aseg y -> x = y) ->
+  forall (interp : N -> option oinv) (dg : oalg -> ObjTree.token -> N) (al : oalg),
+  forall c t i, Commit.commit_pre_b c t i = true -> commit_pre_tree_b aseg interp dg al c t i = true ->
+    writtenb interp dg al (abs aseg (Commit.run_tree (Commit.commit c) t Commit.NoInj) (Commit.c_mo c)) = true.
+Proof. exact commit_yields_written_checkable. Qed.
+Print Assumptions C01_commit_yields_written_object_checkable.
+
+(** histories: from an absent object, any sequence of (anything outside the object root; a commit satisfying
+    [commit_pre] and the STAGED part [staged_pre] of the precondition) keeps the object [written_by_rocfl] -
+    the part [main_written] of the precondition is an invariant, not an assumption *)
+Theorem C01_reachable_tree_valid :
+  forall (aseg : fseg -> oseg), (forall x y, aseg x = aseg y -> x = y) ->
+  forall (interp : N -> option oinv) (dg : oalg -> ObjTree.token -> N) (al : oalg),
+  forall mo t, reach aseg interp dg al mo t ->
+    twf t /\ (Commit.none_under t mo = true \/
+              (written interp dg al (abs aseg t mo)
+               /\ forall fd, TreeValidate.tree_errors dg fd (parse_inv interp) (parse_sidecar dg al) parse_decl true (abs aseg t mo) = []
+                             /\ TreeValidate.tree_errors dg fd (parse_inv interp) (parse_sidecar dg al) parse_decl false (abs aseg t mo) = [])).
+Proof. exact reachable_valid. Qed.
+Print Assumptions C01_reachable_tree_valid.
+
+(** the concrete name abstraction used by the correspondence check is injective *)
+Theorem C01_name_abstraction_injective :
+  forall inv side a pad vs x y, aseg_tab inv side a pad vs x = aseg_tab inv side a pad vs y -> x = y.
+Proof. exact CommitAbsFacts.aseg_tab_inj. Qed.
+Print Assumptions C01_name_abstraction_injective.
+
+(** non-vacuity: a first version, then a second version staged on its result (a new file, a duplicate of committed
+    content alone in a directory, an orphan in two nested directories of its own) satisfy every hypothesis; the
+    history is [reach]able; the second commit leaves exactly v1 + v2 with the one new file *)
+Example C01_fs_nonvacuous :
+  (Commit.commit_pre_b w_cfg1 w_tree1 w_inv1 = true /\ commit_pre_tree_b w_aseg w_interp dg_id ObjTree.Sha512 w_cfg1 w_tree1 w_inv1 = true)
+  /\ (Commit.commit_pre_b w_cfg2 w_tree2 w_inv2 = true /\ commit_pre_tree_b w_aseg w_interp dg_id ObjTree.Sha512 w_cfg2 w_tree2 w_inv2 = true)
+  /\ (forall x y, w_aseg x = w_aseg y -> x = y)
+  /\ reach w_aseg w_interp dg_id ObjTree.Sha512 CheckCommit.ex_mo w_after2
+  /\ writtenb w_interp dg_id ObjTree.Sha512 (abs w_aseg w_after2 CheckCommit.ex_mo) = true
+  /\ List.length (abs w_aseg w_after2 CheckCommit.ex_mo) = 9%nat.
+Proof.
+  split; [exact w_pre1|]. split; [exact w_pre2|]. split; [exact w_aseg_inj|]. split; [exact w_reach|].
+  split; [exact w_written2|]. rewrite w_result2. reflexivity.
+Qed.
